@@ -5,6 +5,18 @@ HERE = os.path.dirname(os.path.dirname(os.path.abspath(__file__)))
 
 # id -> (technique, level text, level note, design ref)
 CHECKS = {
+ "C05": ("PBT + exact small-scope termination: generated lig/kern programs and words, compiled program vs a direct TeX-main-loop interpreter (reference model), calibrated on the crate's unit-test tables, corpus loop verdicts and cmr10",
+         "Random programs over 2-4 letter alphabets (all eight ligature forms, kerns, SKIP/STOP chains, shared chains, >255 instructions with redirected entry points, left-boundary label, right boundary char inside/outside the alphabet) handed over directly, through pl::File and through a TFM round trip; 5 words each, run() and run_with_options. compile reports a loop iff some pair diverges in the interpreter (decided exactly by a step bound on 2-3 letter alphabets, bounded otherwise, undecided skipped); loop-free: glyph/kern sequence and ligature originals equal, originals spell the word.",
+         "Trusted: models/ligkern_interp.rs (TeX 1034-1040 transcription; reproduces 43+22+9 unit-test goldens, 91 corpus loop verdicts, 13 cmr10 facts), proptest.",
+         "DESIGN.md §4 C05"),
+ "C18": ("round-trip PBT on generated list trees + metamorphic formatter checks on restyled sources + grammar/mutation-based totality fuzzing with span validity, calibrated on the repo's .box goldens and documented meanings",
+         "Random horizontal/vertical list trees (depth<=4, every expressible node kind, characters incl. escapes/astral/combining, values at the limits) printed through every public path and parsed back: equal list (library equality and a strict mirror comparison); restyled sources (comments, blank lines, reordered/positional arguments, sp units, \\u escapes): parse == tree, format idempotent, parse(format(s)) == parse(s); 50k random/mutated texts: Ok or non-empty errors with in-range char-boundary spans, format errs iff the CST has errors, never a panic.",
+         "Trusted: the mirror tree type and its conversion, proptest. Glue-ratio sign/f32 precision are not part of the library's equality (by design) and are accepted; ratios >=16384 and dimensions >=16384pt have no spelling and are outside the quantifier (counted).",
+         "DESIGN.md §4 C18"),
+ "C19": ("PBT against a small reference TeX interpreter (line scanner + source stack + conditional skipping) for \\input/\\endinput; model-based PBT of \\openin/\\read/\\ifeof/\\closein scripts against TeX's read_toks; nesting-depth probes",
+         "Random file trees (up to 8 files, 0-5 lines, with/without final newline, empty files, lines ending inside groups/conditionals, \\input and \\endinput anywhere in a line) run against an in-memory file system: output must equal the interpreter that treats files as lines standing in place; chains of 1..150 nested files (limit 100: identical below, located error above). Random stream scripts over files with balanced/unbalanced line groups and a scripted terminal: every macro body defined by \\read (captured unexpanded) and every \\ifeof must equal the model.",
+         "Trusted: the 60-line scanner for the restricted character set, the interpreter, the read_toks model (tex.web 482-486), proptest. Inputs on which TeX itself errors are skipped and counted; \\input after \\endinput on one line is not generated.",
+         "DESIGN.md §4 C19"),
  "C06": ("exhaustive enumeration + PBT against transcriptions of TeX's arithmetic: all scaled values (thorough) print/scan round trip; proptest-generated register programs vs scan_int/scan_dimen/scan_glue/arithmetic models",
          "Every scaled value with |s|<=2^30-1 (thorough; quick: |s|<=2^20, all multiples of 65537, powers of two +-2, 2M random): Display equals print_scaled, parse_no_units and parse_from_string invert it, <=5 digits and no shorter fraction scans back. Random programs of assignments, coercions, \\advance/\\multiply/\\divide over count/dimen/skip registers with constants in every radix/unit, 0-20 fraction digits, sign strings, internal quantities as values and units, fil/fill/filll: \\the output after every operation and presence of recoverable errors must equal the model.",
          "Trusted: models/tex_arith.rs (transcribed from tex.web 99-108, 440-461, 1236-1240; xn_over_d cross-checked against exact i128 arithmetic on every call), proptest. Operand values on which TeX negates -2^31 are skipped; recovery after a missing number is only required to report an error.",
